@@ -182,3 +182,13 @@ Fixpoint first_false (l : list bool) (i : N) : option N :=
 Definition live_check (emptied : bool) (returned : list bool) : list (N * N * N * N) :=
   (if emptied then [] else [(0, 2, 8, 0)]) ++
   (match first_false returned 0 with Some i => [(0, 2, 7, i)] | None => [] end).
+
+(* ---- schedule-forcing passes on the real limiter (virtual clock): events
+   (address index, time, decision), judged by the envelope checker.
+   kind 2, clause 9 callers released together after a pass (concurrent first
+   messages), clause 10 bursts fired while a collection pass is held. ---- *)
+Definition sched_check (idx clause : N) (addrs evs : list Uint63.int) : list (N * N * N * N) :=
+  match envelope_chk (dec_evs (dec_addrs addrs) evs) 0 with
+  | Some i => [(idx, 2, clause, i)]
+  | None => []
+  end.
